@@ -548,7 +548,9 @@ func (s *s1Sim) drive(op *s1op, done chan struct{}, cancel context.CancelFunc, a
 	destroyed := false
 	gcDone := op.kind != "open" || !c.Src.Bool(1, 5, "maygc") // (a forced collection costs milliseconds of real time)
 	ticks := 0
-	for step := 0; step < 400; step++ {
+	w.selSetMode(selControlled)
+	defer w.selSetMode(selFree)
+	for step := 0; step < 1200; step++ {
 		vcore.Heartbeat()
 		synctest.Wait()
 		select {
@@ -558,6 +560,14 @@ func (s *s1Sim) drive(op *s1op, done chan struct{}, cancel context.CancelFunc, a
 		}
 		nh, nc, running := w.pending()
 		var evs []s1event
+		// goroutines of the code under test parked in front of a select: which of them moves, and which of its
+		// cases it tries, is the simulator's choice - so several cases can be ready when it finally looks
+		if ps, ks := w.selOffers(); len(ps) > 0 {
+			for i := range ps {
+				p, k := ps[i], ks[i]
+				evs = append(evs, s1event{fmt.Sprintf("select:%s:%d", p.site, k), 4, func() { w.selRelease(p, k) }})
+			}
+		}
 		if nh > 0 {
 			evs = append(evs, s1event{"deliver:h2c", 6, func() { w.deliver(w.h2c) }})
 		}
@@ -668,11 +678,14 @@ func (s *s1Sim) drive(op *s1op, done chan struct{}, cancel context.CancelFunc, a
 		if pick.name != "tick" {
 			c.Event(pick.name)
 		}
+		if !strings.HasPrefix(pick.name, "select:") {
+			w.selOtherEvent()
+		}
 		pick.run()
 		hs, ss := s.stage()
 		c.State(op.kind, hs, ss, nh, nc, len(running), cancelled, w.transportLost)
 	}
-	return false, "step bound exceeded (400 events) without the call returning"
+	return false, "step bound exceeded (1200 events) without the call returning"
 }
 
 // stage derives an abstract (host stage, server stage) pair from the message log.
